@@ -39,6 +39,8 @@ def build(c, tile=1):
         "secondary/bt": (("secondary/collocation", "secondary/channel"), np.array(sv).reshape(NS, -1)),
         # further variables whose names merely BEGIN like the coordinate fields time / lat / lon
         "secondary/longwave": (("secondary/collocation", "secondary/channel"), np.array(sv).reshape(NS, -1) * 2.0 + 1.0),
+        # single-precision data with a large offset (2^23: one unit in the last place is 1.0)
+        "secondary/bt32": (("secondary/collocation", "secondary/channel"), (np.array(sv).reshape(NS, -1) + 8388608.0).astype("float32")),
         "primary/latent": ("primary/collocation", np.array(pv) * 4.0 - 2.0),
         "primary/time_since": ("primary/collocation", np.array(pv) * 0.5),
         "Collocations/pairs": (("Collocations/group", "Collocations/collocation"), pairs),
@@ -87,7 +89,9 @@ def check_collapse(col, c, ds, conf):
         label = "collapse-" + (ref or "default")
         try:
             # a reducing custom collapser and one that hands back a VIEW of the bin matrix (first partner in pair order)
-            kw = {"collapser": {"max": lambda m, a: np.nanmax(m, axis=a), "first": lambda m, a: m[0]}} if ref == "primary" else {}
+            # (the custom set also REPLACES the standard name "std", for this call only)
+            kw = {"collapser": {"max": lambda m, a: np.nanmax(m, axis=a), "first": lambda m, a: m[0],
+                                "std": lambda m, a: 2.0 * np.nanmax(m, axis=a)}} if ref == "primary" else {}
             with np.errstate(all="ignore"):
                 r = collapse(ds, reference=ref, **kw)
         except Exception as ex:
@@ -102,6 +106,14 @@ def check_collapse(col, c, ds, conf):
                 std = r["secondary/bt_std"].values
                 num = r["secondary/bt_number"].values
                 mx = r["secondary/bt_max"].values if ref == "primary" else None
+                if ref != "primary" and any(v.endswith(("_max", "_first")) for v in r.variables):
+                    raise AssertionError("collapser functions of an EARLIER call appear in a default call")
+                # float32 data: the statistics are those of the values (offset 2^23), not single-precision roundings of them
+                m32 = r["secondary/bt32_mean"].values
+                d32 = np.asarray(m32, dtype=float) - 8388608.0
+                if d32.shape != mean.shape or not np.all((np.abs(d32 - mean) <= 1e-6) | (np.isnan(d32) & np.isnan(mean))) \
+                        or not same(r["secondary/bt32_number"].values, num):
+                    raise AssertionError("float32 variable: mean/number disagree with the same data in float64")
                 if ref == "primary":
                     # longwave = 2 * bt + 1 element-wise, so every statistic of it is determined by the one of bt
                     f1, f2 = r["secondary/bt_first"].values, r["secondary/longwave_first"].values
@@ -117,6 +129,9 @@ def check_collapse(col, c, ds, conf):
                                 ok = False
                             elif n == 0:
                                 ok = ok and math.isnan(mean[i, ch]) and math.isnan(std[i, ch])
+                            elif ref == "primary":
+                                # this call replaced "std" by twice the maximum
+                                ok = ok and abs(mean[i, ch] * n - s) < 1e-9 and same([std[i, ch]], [2.0 * val(st["max"])])
                             else:
                                 ok = ok and abs(mean[i, ch] * n - s) < 1e-9 and abs(std[i, ch] ** 2 * n * n - (n * sq - s * s)) < 1e-7
                             if mx is not None:
